@@ -10,7 +10,12 @@ SPEC = "RateLimit"
 PKG = "./internal/router/"
 TEST = "TestVerifRateLimitReplay"
 HARNESS = [vf.kit("internal/router", "router"),
-           ("ratelimit/replay_test.go", "internal/router/zz_verif_ratelimit_test.go")]
+           ("ratelimit/replay_test.go", "internal/router/zz_verif_ratelimit_test.go"),
+           # second front door (OAuth2 authorization-server login form), in-package there
+           vf.kit("internal/server/oauth/authserver", "authserver"),
+           ("ratelimit/doors_test.go", "internal/server/oauth/authserver/zz_verif_ratelimit_test.go")]
+PKG2 = "./internal/server/oauth/authserver/"
+TEST2 = "TestVerifRateLimitDoors"
 
 
 def cover_paths(records):
@@ -36,15 +41,16 @@ def cover_paths(records):
     return nodes, paths
 
 
-def run_bin(binary, sd, behs, tag, seed, plain=False, timeout=1500):
+def run_bin(binary, sd, behs, tag, seed, plain=False, timeout=1500, test=TEST, pkg=PKG, extra_env=None):
     """One process of the compiled harness (cwd = the package directory, as `go test` does)."""
     bf = vf.write_ndjson(os.path.join(sd, "beh-%s.ndjson" % tag), behs)
     out = os.path.join(sd, "replay-%s.json" % tag)
     env = vf.goenv({"VERIF_IN": bf, "VERIF_OUT": out, "VERIF_SEED": str(seed)})
     if plain:
         env["VERIF_PLAIN"] = "1"
-    p = vf.run([binary, "-test.run", "^%s$" % TEST, "-test.timeout", "%ds" % timeout],
-               cwd=os.path.join(vf.REPO, "internal/router"), env=env, timeout=timeout + 60)
+    env.update(extra_env or {})
+    p = vf.run([binary, "-test.run", "^%s$" % test, "-test.timeout", "%ds" % timeout],
+               cwd=os.path.join(vf.REPO, pkg), env=env, timeout=timeout + 60)
     if not os.path.exists(out):
         raise vf.NoVerdict("harness %s produced no result (rc=%d)\n%s\n%s" % (tag, p.returncode, p.stdout[-3000:], p.stderr[-3000:]))
     res = json.load(open(out))
@@ -89,9 +95,21 @@ def mismatch_key(m):
     return key
 
 
-def account(chk, res, name):
+def doors_key(m):
+    var = {}
+    for x in m.get("prefix") or []:
+        if isinstance(x, dict) and "variant" in x:
+            var = x["variant"]
+    if var.get("UpperSeen"):
+        # one class: the behaviour spelled an account name in another case at the OAuth login form before it diverged
+        return "doors/name-case-variant-at-oauth-door"
+    return "doors/%s/%s/%s->%s/%s" % (m["act"], m["path"], m["want"], m["got"], var.get("Channel"))
+
+
+def account(chk, res, name, keyfn=None):
+    keyfn = keyfn or mismatch_key
     for m in res.get("mismatches") or []:
-        chk.violation(mismatch_key(m), "real code differs from the specification at %s after %s: spec=%s real=%s"
+        chk.violation(keyfn(m), "real code differs from the specification at %s after %s: spec=%s real=%s"
                       % (m["path"], m["act"], m["want"], m["got"]), m)
     chk.cov["traces_validated_against_impl"] += res["behaviours"]
     chk.cov["evaluations"] += res["steps"]
@@ -109,6 +127,8 @@ def run():
         "the background scan is driven explicitly (pruneLoginAttempts) - its 5-minute real-time sleep never elapses during a run",
         "entry points exercised: HTTP Basic and credentials-in-body through Router.ServeHTTP/Session.Authenticate, names in lower and upper case; "
         "'password verification ran' = the credential store was read for that user during the request",
+        "OAuth2 login form (POST /oauth2/authorize): only time-free histories, and only reply + 'verification ran' are compared there "
+        "(that package cannot see or age the router's records)",
         "forgetting of stale records by the scan restarts the count (DESIGN Appendix C reading of 'most recent consecutive failures')"]
     with vf.scratch("c24-") as sd:
         ov = vf.make_overlay(sd, HARNESS)
@@ -116,6 +136,9 @@ def run():
         pool = ThreadPoolExecutor(max_workers=8)
         # the harness is compiled while TLC works
         fbuild = pool.submit(vf.go_test_compile, ov, PKG, binary)
+        binary2 = os.path.join(sd, "authserver.test")
+        fbuild2 = pool.submit(vf.go_test_compile, ov, PKG2, binary2)
+        fdoors = pool.submit(vf.tlc, SPEC, "RateLimit_Cover", "RateLimit_CoverDoors.cfg", sd, timeout=600, workers=2)
         # 1. the design satisfies C24 (exhaustive at the stated bound)
         fmc = pool.submit(vf.tlc, SPEC, SPEC, "RateLimit_MC.cfg" if thorough else "RateLimit_MCq.cfg", sd, timeout=1500, workers=6 if thorough else 4)
         # 2. negative controls: the statement-level invariants must be able to see a limiter that forgets to clear / locks late
@@ -157,16 +180,42 @@ def run():
         res2 = replay(binary, sd, behs, "sim", shards=8 if thorough else 4)
         account(chk, res2, "simulated")
         chk.sample({"kind": "simulated history (calls only)", "calls": [s["call"] for s in behs[0]][:30]})
+        main_bad = bool(chk.cands)
+        # 4b. the second front door: time-free cover, every attempt presented at the OAuth login form or at the native router
+        rd = vf.tlc_ok(fdoors.result(), "cover doors")
+        chk.add_tlc(rd, "transition cover RateLimit_CoverDoors.cfg (time-free)", count_states=False)
+        dnodes, dpaths = cover_paths(rd.records)
+        fbuild2.result()
+        resd = run_bin(binary2, sd, dpaths, "doors", vf.SEED, test=TEST2, pkg=PKG2)
+        resd = {"behaviours": resd["behaviours"], "steps": resd["steps"], "transitions": resd["transitions"],
+                "mismatches": resd.get("mismatches") or [], "act_counts": resd.get("act_counts") or {},
+                "variants": (resd.get("extra") or {}).get("variants") or {}, "replies": (resd.get("extra") or {}).get("replies") or {}}
+        account(chk, resd, "doors (OAuth login form + native router)", keyfn=doors_key)
+        if not resd["mismatches"]:
+            if not resd["replies"].get("oauth/refused") or not resd["replies"].get("basic/refused") or \
+               not any(k.startswith("oauth/upper=True") for k in resd["variants"]):
+                raise vf.NoVerdict("doors replay too weak: %s %s" % (resd["replies"], resd["variants"]))
+            # self-test of this binding: a perturbed expected reply must be noticed
+            cd = [p for p in dpaths if any(s["call"]["reply"] == "refused" for s in p)]
+            pb = copy.deepcopy(cd[len(cd) // 2])
+            i = [i for i, s in enumerate(pb) if s["call"]["reply"] == "refused"][0]
+            pb[i]["call"].update(reply="denied", verified=True)
+            rs = run_bin(binary2, sd, [pb], "doors-selftest", vf.SEED, test=TEST2, pkg=PKG2)
+            if not rs.get("mismatches"):
+                raise vf.NoVerdict("doors binding self-test failed: perturbed reply not noticed")
+        chk.sample({"kind": "doors path (calls only)", "calls": [s["call"] for s in dpaths[len(dpaths) // 2]]})
         # vacuity guards: the replays really locked accounts, refused, cleared, pruned and reconfigured
         tot = {}
         for nm, rr in chk.cov["replay"].items():
+            if nm.startswith("doors"):
+                continue
             for fld in ("replies", "act_counts"):
                 for k, v in rr[fld].items():
                     tot[k] = tot.get(k, 0) + v
-        if not chk.cands and min(tot.get(k, 0) for k in ("refused", "ok", "denied", "Prune", "Configure", "Tick")) == 0:
+        if not main_bad and min(tot.get(k, 0) for k in ("refused", "ok", "denied", "Prune", "Configure", "Tick")) == 0:
             raise vf.NoVerdict("replay too weak: %s" % tot)
         # 5. binding self-test: perturbed expected values must each be reported by the harness
-        if not chk.cands:
+        if not main_bad:
             rng = random.Random(vf.SEED)
             cands = [p for p in allpaths if any(s["call"]["reply"] == "refused" for s in p)]
             if not cands:
